@@ -713,7 +713,8 @@ GRIS_CLASSES = {"1": "refused or crashed on a closed, consistently oriented, sim
                 "11": "capture or classification refused a valid boundary", "12": "a vertex, edge or face has no anchor",
                 "13": "a point of interest is not a vertex anchored to a node", "14": "edge or face anchored to the wrong kind of entity",
                 "15": "vertex anchored to the wrong kind of entity", "16": "faces connected without crossing a curve have different surfaces",
-                "17": "boundary edges not separated by a node have different curves"}
+                "17": "boundary edges not separated by a node have different curves",
+                "18": "C16:dropped-corner-chords-cross"}
 VALIDATOR_TRUST = PROPS["C01"]["trusted"][:3] + ["vtkio (reader of the geometry file) is exercised, not modelled",
                                                  "the kernel itself is not modelled: only its outputs are validated"]
 PROPS["C16"] = dict(
